@@ -65,6 +65,58 @@ def _equal_respelled_duplicate_in_requirement(v, m):
     w = dict(v); w["input"] = {"clauses": v["input"]["st"]["clauses"]}
     return _equal_respelled_duplicate(w, m)
 
+# ---------------------------------------------------------------- C13
+_CI_EXTRA = "İıſK"      # non-ASCII characters that IGNORECASE folds onto ASCII letters
+
+
+@matcher("c13_validate_trailing_newline")
+def _c13_validate_trailing_newline(v, m):
+    """exactly: an (ASCII) valid name followed by one newline"""
+    from props.C13 import ref_valid
+    s = v["input"]["s"]
+    return s.endswith("\n") and ref_valid(s[:-1])
+
+
+@matcher("c13_validate_non_ascii_letter")
+def _c13_validate_non_ascii_letter(v, m):
+    """exactly: a name that is valid once U+0130/U+0131/U+017F/U+212A are read as letters (optionally followed by one
+    newline, which the same anchor lets through)"""
+    from props.C13 import ref_valid
+    s = v["input"]["s"]
+    if not any(c in _CI_EXTRA for c in s):
+        return False
+    t = "".join("a" if c in _CI_EXTRA else c for c in s)
+    if t.endswith("\n"):
+        t = t[:-1]
+    return ref_valid(t)
+
+
+def _c13_dd(s):
+    from props.C13 import ref_normalized
+    return len(s) >= 3 and s[1:3] == "--" and ref_normalized(s[0] + "-" + s[3:])
+
+
+@matcher("c13_normalized_dashdash_after_first")
+def _c13_normalized_dashdash_after_first(v, m):
+    """exactly: c--rest where c-rest is a normalised name (the look-ahead is never evaluated right after the first character)"""
+    return _c13_dd(v["input"]["s"])
+
+
+@matcher("c13_normalized_trailing_newline")
+def _c13_normalized_trailing_newline(v, m):
+    """exactly: a string is_normalized_name accepts without the newline, followed by one newline"""
+    from props.C13 import ref_normalized
+    s = v["input"]["s"]
+    return s.endswith("\n") and (ref_normalized(s[:-1]) or _c13_dd(s[:-1]))
+
+
+# ---------------------------------------------------------------- C14
+@matcher("c14_damage_kind")
+def _c14_damage_kind(v, m):
+    """exactly the wheel_rejects inputs of one damage kind (the kind names the class: every input of the kind is affected)"""
+    return v["input"].get("damage") == m["damage"]
+
+
 @matcher("numeric_component_beyond_int_str_limit")
 def _beyond_int_limit(violation, m):
     """C02/C11/C12: the witness is a version with one numeric component longer than the running interpreter's
